@@ -8,6 +8,7 @@
 //	show-vs-var           X{{ render "f" }}Y            ==  X{% var x_ = render "f" %}{{ x_ }}Y
 //	render-vs-alone       X{{ render "f" }}Y            ==  X + (f built and run alone) + Y      (same format)
 //	md-render-vs-convert  X{{ render "f.md" }}Y in HTML ==  X + convert(f.md run alone) + Y
+//	render-repeated       X{{ render "f" }}Y{{ render "f" }}Z  ==  X + t + Y + t + Z, t = f run alone (converted if Markdown in HTML)
 //	extends-vs-expanded   child extends layout          ==  layout file with the child's import, vars and macros declared in place
 //	import-vs-local       {% import "lib" %} + calls    ==  the library's declarations written in the importing file
 //	default-missing       {{ render "missing" default E }} == {{ E }}
@@ -20,6 +21,7 @@ package c16
 import (
 	"bytes"
 	"fmt"
+	"regexp"
 	"strings"
 
 	"github.com/open2b/scriggo/native"
@@ -42,7 +44,7 @@ const (
 
 func (prop) Drive(d *core.Driver) error {
 	n := d.N(1200, 30000)
-	d.T.Rule = "a set of 1-5 partials of mixed formats in nested directories (rendering each other through relative and absolute paths, with same-named decoy files in other directories), optional imported libraries with 1-3 macros (with/without parameters, package variables, calling each other) is generated; one of seven rewrites produces the second file set; both are built and run with the same globals (strings holding < & \" ', ints, an HTML value, a slice). distinct_nontrivial counts distinct (relation, formats involved / import form, outcome class, whether nested renders, macros calls, conversions occurred) signatures among pairs where both sides produced output, plus agreeing-error signatures"
+	d.T.Rule = "a set of 1-5 partials of mixed formats in nested directories (rendering each other through relative and absolute paths, with same-named decoy files in other directories), optional imported libraries with 1-3 macros (with/without parameters, package variables, calling each other) is generated; one of eight rewrites produces the second file set; both are built and run with the same globals (strings holding < & \" ', ints, an HTML value, a slice). distinct_nontrivial counts distinct (relation, formats involved / import form, outcome class, whether nested renders, macros calls, conversions occurred) signatures among pairs where both sides produced output, plus agreeing-error signatures"
 	d.T.Assumptions = []string{
 		"text atoms start and end with a non-space byte, so the documented removal of statement-only lines cannot make the two sides differ",
 		"globals are declared with values (the declared-without-value path is C17)",
@@ -108,6 +110,25 @@ func (prop) Work(c core.Case) core.Result {
 	switch cd.Rel {
 	case "render-vs-alone":
 		want = []byte(cd.Pre + string(b.Out) + cd.Post)
+	case "render-repeated":
+		t := b.Out
+		if cd.Convert {
+			var buf bytes.Buffer
+			if err := tmplfiles.MarkdownConverter(b.Out, &buf); err != nil {
+				res.Status = core.Inconclusive
+				res.Detail = "goldmark failed: " + err.Error()
+				return res
+			}
+			t = buf.Bytes()
+		}
+		var w bytes.Buffer
+		for i, sep := range cd.Seps {
+			w.WriteString(sep)
+			if i < len(cd.Seps)-1 {
+				w.Write(t)
+			}
+		}
+		want = w.Bytes()
 	case "md-render-vs-convert":
 		var buf bytes.Buffer
 		if err := tmplfiles.MarkdownConverter(b.Out, &buf); err != nil {
@@ -127,6 +148,12 @@ func (prop) Work(c core.Case) core.Result {
 	feat := ""
 	if strings.Count(all, "{{ render") > 1 {
 		feat += "+nested-render"
+	}
+	if n := alternations(cd.A.Files, cd.A.Root); n >= 2 {
+		feat += fmt.Sprintf("+alt%d", n)
+	}
+	if strings.Contains(all, "{% import") && cd.Rel != "import-vs-local" {
+		feat += "+lib"
 	}
 	if strings.Contains(all, "{% macro") {
 		feat += "+macro"
@@ -154,4 +181,37 @@ func diffFiles(cd caseData) string {
 		return "(same files)\n"
 	}
 	return "(files that differ from A)\n" + d.String()
+}
+
+var renderRef = regexp.MustCompile(`render "([^"]+)"`)
+
+// alternations returns the largest number of format changes along a chain of
+// renders starting at root (coverage only; paths are resolved by base name).
+func alternations(files map[string]string, root string) int {
+	byBase := map[string]string{}
+	for n := range files {
+		byBase[n[strings.LastIndexByte(n, '/')+1:]] = n
+	}
+	var walk func(name string, depth int) int
+	walk = func(name string, depth int) int {
+		best := 0
+		if depth > 6 {
+			return 0
+		}
+		for _, m := range renderRef.FindAllStringSubmatch(files[name], -1) {
+			t, ok := byBase[m[1][strings.LastIndexByte(m[1], '/')+1:]]
+			if !ok {
+				continue
+			}
+			n := walk(t, depth+1)
+			if extOf(t) != extOf(name) {
+				n++
+			}
+			if n > best {
+				best = n
+			}
+		}
+		return best
+	}
+	return walk(root, 0)
 }
